@@ -53,7 +53,7 @@ impl Property for Total {
     }
     fn budget(&self, tier: Tier) -> Budget {
         Budget {
-            cases: tier.pick(150_000, 10_000_000),
+            cases: tier.pick(400_000, 10_000_000),
             tape_len: 4000,
         }
     }
@@ -391,7 +391,7 @@ impl Property for Valid {
     }
     fn budget(&self, tier: Tier) -> Budget {
         Budget {
-            cases: tier.pick(80_000, 5_000_000),
+            cases: tier.pick(200_000, 5_000_000),
             tape_len: 3500,
         }
     }
